@@ -12,7 +12,9 @@ OBLIGATIONS = ['C04.ffdp_le', 'C04.onePass_perm', 'C04.onePass_nochange', 'C04.s
 # completeness side (Props/C04Complete.lean): termination of the swap sorter on acyclic netlists with the explicit bound
 # n(n-1)/2 + 1 passes, hence acceptance under the code's limit max(1000, n+1) for every netlist of at most 45 leaves
 OBLIGATIONS_COMPLETE = ['C04.accepted_within', 'C04.accepted_of_limit', 'C04.accepted_upto45', 'C04.schedulable_sorted',
-                        'C04.accepted_iff_acyclic', 'C04.acyclic_iff_noCycle', 'C04.accepted_iff_noCycle_upto45']
+                        'C04.accepted_iff_acyclic', 'C04.acyclic_iff_noCycle', 'C04.accepted_iff_noCycle_upto45',
+                        'C04.accepted_of_inversions', 'C04.accepted_iff_noCycle_quadratic_limit',
+                        'C04.depth2_needs_n_passes']
 COMB_KINDS = ['And2', 'Or2', 'Not', 'Buf', 'Mux2', 'Sub', 'Mul', 'AddCarryIn', 'Constant', 'ShiftLeftConstant',
               'ShiftRightConstant', 'Bit', 'Range', 'ZeroExtend', 'SignExtend', 'Repeat', 'ConcatenateLSBF',
               'ConcatenateMSBF', 'BitsLSBF', 'BitsMSBF', 'SignedMul']
